@@ -361,7 +361,7 @@ func marshalRecordB() string {
 	type record struct {
 		Title string
 		Tags  []string
-		Extra string `control:"X-Extra"`
+		Extra string                `control:"X-Extra"`
 		Dep   dependency.Dependency `control:"Depends"`
 	}
 	d, _ := dependency.Parse("foo (>= 1)")
